@@ -11,6 +11,9 @@ structure DS where
   impl : List TEv := []              -- reversed: the implementation's event log
   badTr : Option String := none
   callPanics : Nat := 0              -- `tr callpanic`: a Shutdown() call panicked in its caller's goroutine
+  watchErrSent : Nat := 0            -- `tr wsent err`: a provider goroutine sent an error notification
+  sawRet : Bool := false             -- `tr ret …`: Run returned
+  wedged : Bool := false             -- `tr wedged` before any `tr ret`: the history ended with Run not returned
 
 def variant : Variant := .fixed
 
@@ -122,10 +125,12 @@ def handler : Handler DS where
     | ["tr", "prov"] => { d with impl := .prov :: d.impl }
     | "tr" :: "call" :: _ => { d with impl := .call :: d.impl }
     | ["tr", "callpanic"] => { d with callPanics := d.callPanics + 1 }
+    | ["tr", "wsent", "err"] => { d with watchErrSent := d.watchErrSent + 1 }
+    | ["tr", "wedged"] => { d with wedged := d.wedged || !d.sawRet }
     | ["tr", "quiet"] => { d with impl := .quiet :: d.impl }
     | ["tr", "stop", _] => { d with impl := .stop :: d.impl }
     | ["tr", "stopev", _] => { d with impl := .stop :: d.impl }
-    | ["tr", "ret", r] => { d with impl := .ret (r == "ok") :: d.impl }
+    | ["tr", "ret", r] => { d with impl := .ret (r == "ok") :: d.impl, sawRet := true }
     | _ => d
   onEnd := fun d =>
     match d.badTr with
@@ -135,6 +140,11 @@ def handler : Handler DS where
       | .ok _ => ["prop trace=ok"]
       | .error b => [s!"prop trace=FAIL sig={b.sig}"]) ++
       -- "safe from any goroutine": the model's `close` never panics in the caller (C20_no_caller_panic); the implementation's did
+      -- "a configuration-watch error stops the collector": every history of the harness is run to its end, so a case in
+      -- which a provider sent an error notification must contain Run's return (the model: `C20_watch_error_never_lost`)
+      (if d.watchErrSent > 0 && (d.wedged || !d.sawRet) then
+         [s!"prop watcherr=FAIL sig=C20/runloop/watch-error-notification-lost sent={d.watchErrSent} and Run never returned"]
+       else ["prop watcherr=ok"]) ++
       (if d.callPanics = 0 then ["prop callsafe=ok"]
        else [s!"prop callsafe=FAIL sig=C20/shutdown/concurrent-call-panicked panics={d.callPanics}"])
 
